@@ -574,17 +574,23 @@ def coverage(agg, mode, tier):
       "nontrivial_requests": agg["nontrivial"],
       "runs": agg["runs"],
       "rule": ("One run = generated programs (0-3 upstream modules, 2-4 'main' "
-               "programs with unions, containers, classes, several errors per "
-               "line, identical errors on different lines, failing calls from "
-               "two sites, from-imports of >=2 names) x a pool of 3-8 requests "
-               "(program x text/pickled dependencies x option variant; "
-               "sometimes the gzip builtins bundle) x 2-4 worker PROCESSES "
-               "with their own PYTHONHASHSEED, each serving its own shuffled "
-               "history (API path with fresh / persistent / dirtied loader, "
-               "command-line path to .pyi or .pickled) under seeded clock "
-               "jumps, GC thresholds/collect/freeze and heap junk. evaluations "
-               "= responses compared. distinct = distinct (programs, request "
-               "key, hash seed != 0, loader mode, path, position<=3, perturbed); "
+               "programs from the proggen feature families: hierarchies, unions, "
+               "generics, protocols, several names of one dependency, "
+               "set-enumerating errors; programs of a run share class names or "
+               "a common prefix; half of the runs with upstream modules have "
+               "one that CHANGES at the same stub path (int<->str variant + "
+               "twin main programs); 30% contain a source that does not "
+               "compile) x a pool of 3-10 requests (program x text/pickled "
+               "dependencies x option variant; sometimes the gzip builtins "
+               "bundle) x 2-4 worker PROCESSES with their own PYTHONHASHSEED, "
+               "each serving its own shuffled history (API path with fresh / "
+               "persistent / dirtied loader, command-line path to .pyi or "
+               ".pickled) under seeded clock jumps, GC thresholds/collect/"
+               "freeze, heap junk, storage faults inside analyses and - a "
+               "third of the perturbed workers - a real file system (private "
+               "tmpfs) instead of the in-memory one. evaluations = responses "
+               "compared. distinct = distinct (programs, request key, hash "
+               "seed != 0, loader mode, path, position<=3, perturbed); "
                "non-trivial = request had a predecessor in its process or a "
                "non-zero hash seed."),
       "samples": agg["samples"][:2],
@@ -601,7 +607,10 @@ def coverage(agg, mode, tier):
           "stub": ["typeshed: 5-module synthetic fixture "
                    "(/verif/fixtures/mini_typeshed) via TYPESHED_HOME",
                    "file system: in-memory SimFS behind open_function / "
-                   "path_utils seams", "clock: time.* patched per worker"],
+                   "path_utils seams (real tmpfs in real-FS workers, count in "
+                   "perturbations_fired.realfs_worker)",
+                   "clock: time.* patched per worker; file mtimes of real-FS "
+                   "workers set from it"],
       },
   }
 
